@@ -11,7 +11,15 @@ back into a script).  Every hop marks its OWN file's globals by plain name, opti
 ``counter`` (``global counter; counter += 1``), calls the next hop, optionally raises, and marks its globals
 again after the callee returned or raised.  Chains are started concurrently from @service functions,
 @event_trigger functions and task.create, at generated instants, in both decorator subsystems, optionally
-while a pyscript.reload is in flight.
+while a pyscript.reload is in flight.  A raising hop raises either from its function body or from inside a class body
+(``rcls``: the class statement is the frame that raises).
+
+Reloads: ``pyscript.reload`` without arguments after touching a module file, with ``global_ctx='*'``, with the name of
+one script/app context, and with the name of a MODULE context (a module, a package, a file inside a package) - the
+documented form that re-loads the named module together with everything that imports it; such a call may be followed,
+once the runs are over, by a reload of just one entry file.  With ``reimport`` every file's final probe imports each
+of its modules once more inside a function body (``import m as again`` / ``from . import sub as again``) and reports
+which instance that statement handed out next to the instance the file holds from its load-time import.
 
 Inner functions built across files: before a call into ANOTHER file the caller may first (``clo`` of a plan step) enter
 a frame of its own file, ``shade_all`` / ``shade_none``, that contains inner defs - so its locals are closure-capable -
@@ -31,7 +39,10 @@ one the plan denotes (calls return / raise to the right frame); a file's top-lev
 must read g's tag / token / counter history / context name / helper / class and its own enclosing local whoever runs
 it; the function f had decorated with g's decorator must read f's names although g's wrapper calls it; f's frame must
 still read its own locals (or, without shadowing, f's globals) afterwards; without a reload every inner function
-handed out reports exactly once.
+handed out reports exactly once.  Reloads by module name and the quiescent re-import add no rule of their own: the
+re-imported instance is one more view in the final 'one live instance per module name' check.  A frame whose mark
+carries the hop index of a frame it had called (its local ``d`` resolved in the callee's locals after the callee came
+back or raised) is reported as C11.caller_context_not_restored / what=locals.
 """
 
 from __future__ import annotations
@@ -54,7 +65,11 @@ RULE = (
     "method of a function-local class, decorator wrapper - that the callee's file builds for a frame of the caller "
     "whose locals do or do not shadow the callee's global names, run by the caller, a created task or an "
     "@event_trigger closure; start instants in bursts, a few loop passes apart or on a "
-    "0.25 s grid; optional pyscript.reload (all / touched module / one context) racing the runs; executor "
+    "0.25 s grid; a raising hop raises from its body or (coin per scenario, then p=0.4) from inside a class body; "
+    "optional pyscript.reload (all / touched module / one named context: an entry file or a module, package or "
+    "file inside a package that other files import) racing the runs, a reload that named a module optionally "
+    "followed by a reload of one importing entry file after the runs; p=0.6 a function-body re-import of every "
+    "imported module at the final quiescent point; executor "
     "latency, cost, lateness from gen_cfg); distinct = scenario digest; non-trivial = at least two runs overlapped "
     "in time and at least one call crossed a file boundary"
 )
@@ -73,8 +88,16 @@ ASSUMPTIONS = [
     "end of its previous load and the start of the import/load that runs it again; two loads of one file that "
     "overlap in time are never legitimate; runs that do not start while a reload is in flight are don't-care; "
     "instance identity once a reload has been issued is judged only at the final quiescent probe",
-    "pyscript.reload calls are issued one at a time, and never with global_ctx=<a module> (both hit reload "
-    "defects outside C11 that make the entry points disappear)",
+    "pyscript.reload calls are issued one at a time (overlapping reloads hit defects outside C11 that make the "
+    "entry points disappear); global_ctx may name a module: docs 'Additional files might still be reloaded too "
+    "(... any modules, apps or scripts that import a module if global_ctx was set to a module)' - the oracle does "
+    "not demand that the importers ARE re-loaded, only (property) that at the final quiescent point all live files "
+    "and every further import statement agree on one instance per module name",
+    "an import statement executed at the final quiescent point (no reload in flight, no load in progress) must hand "
+    "out the instance the importing file already holds: 'importing a pyscript module any number of times from any "
+    "number of files yields one shared module instance'",
+    "a raise from inside a class body is one of the 'calls that raise': the frames above it must afterwards read "
+    "their own locals and globals exactly as after a raise from a function body (same expected mark sequence)",
     "inner functions are only requested from ANOTHER file than the calling frame's: which scope a free name of an "
     "inner function binds to when the function that defines it was called from a frame of the SAME file is a "
     "question of lexical scoping inside one file (a pure function of the program), not of isolation between files "
@@ -97,6 +120,9 @@ REACH_PROBES = [
     "inner_function_built_across_files", "inner_function_closure", "inner_function_cls", "inner_function_deco",
     "inner_function_run_by_direct", "inner_function_run_by_task", "inner_function_run_by_trigger",
     "caller_locals_shadow_callee_globals",
+    "reload_names_module", "reload_names_loaded_module", "reload_names_module_with_importers",
+    "importer_reloaded_with_named_module", "one_file_reloaded_after_named_module_reload",
+    "reimport_at_quiescent_point", "callee_raised_in_class_body", "callee_raised_in_class_body_same_file",
 ]
 SHRINK_LISTS = [["ops"], ["spec", "runs"], ["spec", "runs", "*", "plan"], ["spec", "edges"]]
 
@@ -202,7 +228,8 @@ def _gen_clo(rng: random.Random) -> dict:
             "salt": rng.randint(1, 9) * 10}
 
 
-def _gen_plan(rng: random.Random, files: list, edges: list, entry: str, max_hops: int) -> list:
+def _gen_plan(rng: random.Random, files: list, edges: list, entry: str, max_hops: int,
+              clsraise: bool = False) -> list:
     plan = []
     cur = entry
     upstream = [entry]
@@ -228,6 +255,8 @@ def _gen_plan(rng: random.Random, files: list, edges: list, entry: str, max_hops
             # the arguments are bound, i.e. before the callee's body starts; the caller catches it and looks at
             # its own globals again
             "badfirst": rng.random() < 0.15,
+            # a raising hop raises from inside a class body (the class statement is the frame that raises)
+            "rcls": clsraise and rng.random() < 0.4,
             # before the call the caller lets the callee's file build an inner function (closure / method of a local
             # class / decorator wrapper) while the caller's own frame holds locals named like the callee's globals;
             # the inner function is then run by the caller, by a created task or by a trigger (cross-file only)
@@ -251,10 +280,12 @@ def gen(rng: random.Random, tier: str) -> dict:
             slow[f] = rng.choice([0.02, 0.1, 0.3])
     runs = []
     max_runs = 6
+    # steer coin: half of the scenarios never raise out of a class body (see ASSUMPTIONS / the class-body finding)
+    clsraise = rng.random() < 0.5
     for rid in range(1, rng.randint(2, max_runs) + 1):
         entry = rng.choice(entries)
         runs.append({"id": rid, "entry": entry, "how": rng.choice(["service", "service", "event", "event", "create"]),
-                     "catch_top": rng.random() < 0.7, "plan": _gen_plan(rng, files, edges, entry, 4)})
+                     "catch_top": rng.random() < 0.7, "plan": _gen_plan(rng, files, edges, entry, 4, clsraise)})
     ops = []
     for run in runs:
         op = gen_delay(rng, burst_p=0.4, grid=0.25, max_steps=3)
@@ -263,17 +294,35 @@ def gen(rng: random.Random, tier: str) -> dict:
     if mode in ("reload", "free") and rng.random() < (0.9 if mode == "reload" else 0.3):
         for _ in range(rng.choice([1, 1, 2])):
             op = gen_delay(rng, burst_p=0.4, grid=0.25, max_steps=2)
-            rmode = rng.choice(["all", "touch", "ctx"])
-            # global_ctx=<a module> is not generated: the importers it re-loads are never started again (their
-            # services and triggers stay away) - a reload defect outside C11 that would only blind the final probe
-            target = rng.choice([f for f in files if f in MOD_ORDER] if rmode == "touch" else entries)
+            rmode = rng.choice(["all", "touch", "ctx", "ctx"])
+            mods = [f for f in files if f in MOD_ORDER]
+            if rmode == "touch":
+                target = rng.choice(mods)
+            elif rmode == "ctx" and rng.random() < 0.6:
+                # pyscript.reload(global_ctx=<a module, a package, a file inside a package>): the documented form
+                # that re-loads the named module together with every file that imports it
+                target = rng.choice(mods)
+            else:
+                target = rng.choice(entries)
             op.update({"kind": "reload", "mode": rmode, "target": target})
             ops.insert(rng.randint(1, len(ops)), op)
+        named = [o for o in ops if o["kind"] == "reload" and o["mode"] == "ctx" and o["target"] in MOD_ORDER]
+        if named and rng.random() < 0.5:
+            # ... followed, once everything is over, by a reload of just ONE file that imports the named module (or of
+            # any one entry file): it binds whatever instance the context registry hands out now
+            imps = sorted({e["src"] for e in edges if e["dst"] in {o["target"] for o in named}
+                           and e["src"] in ENTRY_POOL}) or entries
+            op = {"dt": rng.choice([1.0, 2.5, 6.0]), "kind": "reload", "mode": "ctx", "target": rng.choice(imps)}
+            ops.append(op)
     if rng.random() < 0.12:
         op = gen_delay(rng)
         op.update({"kind": "stall", "s": rng.choice([0.01, 0.2])})
         ops.insert(rng.randint(0, len(ops)), op)
-    scn = {"cfg": cfg, "spec": {"files": files, "edges": edges, "slow": slow, "runs": runs, "mode": mode}, "ops": ops}
+    # at the final quiescent point every file imports each of its modules once more inside a function body and
+    # reports which instance that import statement handed out
+    reimport = rng.random() < 0.6
+    scn = {"cfg": cfg, "spec": {"files": files, "edges": edges, "slow": slow, "runs": runs, "mode": mode,
+                                "reimport": reimport}, "ops": ops}
     out = normalize(scn)
     if out is None:
         raise HarnessError("C11.gen produced an invalid scenario")
@@ -300,6 +349,7 @@ def normalize(scn: dict) -> dict | None:
         edges.append(edge)
     spec["edges"] = edges
     spec["slow"] = {f: s for f, s in sorted((spec.get("slow") or {}).items()) if f in files and f in MOD_ORDER}
+    spec["reimport"] = bool(spec.get("reimport", False))
     runs = []
     ids = set()
     for run in spec["runs"]:
@@ -326,6 +376,7 @@ def normalize(scn: dict) -> dict | None:
                                     or not isinstance(clo.get("salt"), int)):
                 clo = None  # only a call into ANOTHER file is this property's business
             step["clo"] = clo
+            step["rcls"] = bool(step.get("rcls", False)) and bool(step["raise"])
             if d == 0:
                 step["spawn"] = run["how"] == "create"
             if step["spawn"]:
@@ -348,8 +399,7 @@ def normalize(scn: dict) -> dict | None:
                 continue
             started.add(op["run"])
         elif op["kind"] == "reload":
-            if op["target"] not in files or (op["mode"] == "touch" and op["target"] not in MOD_ORDER) or \
-                    (op["mode"] == "ctx" and op["target"] not in ENTRY_POOL):
+            if op["target"] not in files or (op["mode"] == "touch" and op["target"] not in MOD_ORDER):
                 continue
         ops.append(op)
     if not started:
@@ -371,7 +421,7 @@ def simplify(scn: dict):
             yield normalize(cand)
         for si, step in enumerate(run["plan"]):
             for key, val in (("sleep", 0), ("sleep2", 0), ("raise", False), ("meth", False), ("spawn", False),
-                             ("catch", "catch"), ("badfirst", False)):
+                             ("catch", "catch"), ("badfirst", False), ("rcls", False)):
                 if step.get(key, val) != val and not (key == "spawn" and si == 0):
                     cand = copy.deepcopy(scn)
                     cand["spec"]["runs"][ri]["plan"][si][key] = val
@@ -400,6 +450,18 @@ def simplify(scn: dict):
         cs["edges"] = [e for e in cs["edges"] if e["src"] not in gone and e["dst"] not in gone]
         cs["runs"] = [r for r in cs["runs"] if r["entry"] not in gone and all(s["f"] not in gone for s in r["plan"])]
         yield normalize(cand)
+    if spec.get("reimport"):
+        cand = copy.deepcopy(scn)
+        cand["spec"]["reimport"] = False
+        yield normalize(cand)
+    ents = [f for f in spec["files"] if f in ENTRY_POOL]
+    for i, op in enumerate(scn["ops"]):
+        if op["kind"] == "reload" and op["mode"] == "ctx" and op["target"] in MOD_ORDER:
+            # name an entry file instead of a module / name the package instead of the file inside it
+            for tgt in ents[:1] + (["pk"] if op["target"] == "ps" else []):
+                cand = copy.deepcopy(scn)
+                cand["ops"][i]["target"] = tgt
+                yield normalize(cand)
     if spec.get("slow"):
         for fid in list(spec["slow"]):
             cand = copy.deepcopy(scn)
@@ -547,7 +609,8 @@ def _hop_body(fid: str, files: list, my_edges: list, ind: str, meth: bool) -> li
     lines += [f"{i3}if how == 'exc' and me['catch'] != 'catch':", f"{i4}raise ValueError('boom again')"]
     lines += [f"{ind}if me['sleep2'] > 0:", f"{i2}task.sleep(me['sleep2'])",
               f"{i2}sim.mark('after', {fid!r}, run=run, d=d, {own})"]
-    lines += [f"{ind}if me['raise']:", f"{i2}raise ValueError('boom')", f"{ind}return counter"]
+    lines += [f"{ind}if me['raise']:", f"{i2}if me.get('rcls'):", f"{i3}class Failing:", f"{i4}made_in = tag",
+              f"{i4}raise ValueError('boom')", f"{i2}raise ValueError('boom')", f"{ind}return counter"]
     return lines
 
 
@@ -649,6 +712,10 @@ def _render_file(fid: str, spec: dict) -> str:
                 lines.append(f"    {lazy}")
             lines.append(f"    sees['{edge['dst']}.{form}'] = {ex['import_token']}")
             lines.append(f"    {ex['peek']}(out)")
+        if spec.get("reimport"):
+            # one more import of the same module, executed now: it must hand out the instance this file already holds
+            again = "from . import sub as again" if edge["dst"] == "ps" else f"import {edge['dst']} as again"
+            lines += [f"    {again}", f"    sees['{edge['dst']}.again'] = again.import_token"]
     lines += ["    ent['tag2'] = tag", "    ent['ctx2'] = pyscript.get_global_ctx()", "    ent['tok2'] = import_token", ""]
     if fid in ENTRY_POOL:
         lines += ["def launch(run, plan, how, top):", "    nx = plan[0]", "    via = nx['via']", "    d = -1",
@@ -1234,6 +1301,18 @@ def judge(w: World, scn: dict, st: dict):
             t = got[pos][1]["t"] if pos < len(got) else (got[-1][1]["t"] if got else got_root[0]["t"])
             errs = [l["msg"].strip().split("\n")[-1][:160] for l in w.logs
                     if l["level"] == "ERROR" and "boom" not in l["msg"]][:3]
+            if want and have and want[0] == have[0] and want[1] == have[1] and want[3:] == have[3:] and \
+                    want[0] in ("back", "after") and isinstance(have[2], int) and have[2] > want[2]:
+                # the frame of hop want[2] reports the hop index of a frame it had CALLED: after the call returned
+                # or raised, its plain names resolve in the callee's locals
+                through_cls = any(s.get("rcls") and s["raise"] for s in rn["plan"][want[2] + 1:])
+                viol("C11.caller_context_not_restored",
+                     {"at": want[0], "what": "locals", "callee_raised_in_class_body": through_cls},
+                     f"run {rid} (entry {rn['how']} in {rn['entry']}, plan {[(s['f'], s['via']) for s in rn['plan']]}): "
+                     f"the frame of hop {want[2]} in {want[1]} reads its local 'd' as {have[2]} once its callee has "
+                     f"{'raised' if (want[3:] or ('',))[0] == 'exc' else 'come back'} - that is the local of a frame it "
+                     f"called (mark #{pos} should be {want}, is {have}); error log: {errs}", t)
+                continue
             viol("C11.call_chain_deviates",
                  {"expected": want[0] if want else None, "got": have[0] if have else None},
                  f"run {rid} (entry {rn['how']} in {rn['entry']}, plan "
@@ -1278,6 +1357,32 @@ def judge(w: World, scn: dict, st: dict):
                 final_views.setdefault(g, {}).setdefault(seen_tok, []).append(f"{fid} via {via}")
                 if seen_tok != latest_tok.get(g):
                     stale_holders.setdefault(g, []).append(tok)
+    if any(via.endswith(".again") for m in w.marks[peek_from:] if m["args"][0] == "peek"
+           for ent in m["raw_kw"].get("out") or [] for via in (ent.get("sees") or {})):
+        w.probe("reimport_at_quiescent_point")
+    # ---- reach: pyscript.reload(global_ctx=<module>) with files that import it, and a later reload of one importer
+    named_done = None
+    for rec in st["reloads"]:
+        rop = rec["op"]
+        if rop["mode"] != "ctx":
+            continue
+        if rop["target"] in ENTRY_POOL:
+            if named_done is not None and rec["i0"] > named_done:
+                w.probe("one_file_reloaded_after_named_module_reload")
+            continue
+        w.probe("reload_names_module")
+        root = "pk" if rop["target"] == "ps" else rop["target"]
+        if not any(x["iter"] < rec["i0"] for x in loads.get(root, [])):
+            continue
+        w.probe("reload_names_loaded_module")
+        imps = [e["src"] for e in spec["edges"] if e["dst"] == root
+                and any(x["iter"] < rec["i0"] for x in loads.get(e["src"], []))]
+        if imps:
+            w.probe("reload_names_module_with_importers")
+            i1 = rec["i1"] if rec["i1"] is not None else w.loop.iterations
+            if any(rec["i0"] <= x["iter"] <= i1 for f in imps for x in loads.get(f, [])):
+                w.probe("importer_reloaded_with_named_module")
+            named_done = i1 if named_done is None else min(named_done, i1)
     n_entries = sum(1 for f in files if f in ENTRY_POOL)
     t_end = w.marks[-1]["t"] if w.marks else 0.0
     if n_peek != n_entries:
@@ -1331,6 +1436,10 @@ def _count_plan_features(w: World, rn: dict, rid: int) -> None:
             w.probe("cross_file_call_failed_at_argument_binding")
         if step["raise"] and step["f"] != prev and not step["spawn"]:
             w.probe("callee_raised_through_context_switch")
+        if step["raise"] and step.get("rcls"):
+            w.probe("callee_raised_in_class_body")
+            if step["f"] == prev and not step["spawn"]:
+                w.probe("callee_raised_in_class_body_same_file")
         if i + 1 < len(plan) and step["catch"] == "none" and not plan[i + 1]["spawn"] and _raises(plan, i + 1):
             w.probe("exception_through_unguarded_frame")
         prev = step["f"]
